@@ -10,16 +10,32 @@ use emulator_2a_lib::machine::{AluInput, AluOutput, AluSelect};
 pub fn meta() -> Meta {
     Meta {
         id: "C08",
-        rule: "every point of 16 functions x 256 x 256 operands x 2 carry-in is evaluated through the real AluOutput::from_input and compared with the reference function table; distinct_nontrivial counts distinct (function, carry-in, carry/zero/negative outcome) classes observed on the real ALU",
+        rule: "every point of 16 functions x 256 x 256 operands x 2 carry-in is evaluated through the real AluOutput::from_input and compared with the reference function table, and every function's 4-bit select code (the number the micro-instruction word uses for it) is compared with the documented list; distinct_nontrivial counts distinct (function, carry-in, carry/zero/negative outcome) classes observed on the real ALU",
         exhaustive: true,
         assumptions: vec!["the reference table in harness/src/refmodel/alu.rs is the documented function (doc comments of AluSelect + statement of C08)"],
-        floors: vec![("points", 2_097_152), ("functions_seen", 16)],
+        floors: vec![("points", 2_097_152), ("functions_seen", 16), ("select_codes_checked", 16)],
     }
 }
 
 fn select(i: u8) -> AluSelect {
     use AluSelect::*;
     [ADDH, A, NOR, ZERO, ADD, ADDS, ADC, ADCS, LSR, RR, RRC, ASR, B, SETC, BH, INVC][i as usize]
+}
+
+/// The documented list gives every function its 4-bit select code; the micro-instruction word
+/// addresses the functions by that code.
+fn check_codes(rep: &mut Report) {
+    for f in 0..16u8 {
+        let code = select(f) as u8;
+        if code != f {
+            rep.violate(
+                &format!("C08:{}:select-code", NAMES[f as usize]),
+                format!("function {} has select code {:#06b}, the documented list says {:#06b}", NAMES[f as usize], code, f),
+                obj![("function", NAMES[f as usize]), ("select", f), ("codes_only", true)],
+            );
+        }
+        rep.inc("select_codes_checked");
+    }
 }
 
 fn check_point(f: u8, a: u8, b: u8, cin: bool, rep: &mut Report) {
@@ -92,6 +108,7 @@ pub fn run(ctx: &Ctx) -> Report {
         }
     });
     rep.count("profile_checked", ctx.checked as u64);
+    check_codes(&mut rep);
     rep
 }
 
@@ -99,6 +116,11 @@ pub fn replay(_ctx: &Ctx, w: &J) -> Report {
     let mut rep = Report::new();
     let g = |k: &str| w.get(k).and_then(|v| v.as_i64()).unwrap_or(0) as u8;
     let cin = w.get("carry_in").and_then(|v| v.as_bool()).unwrap_or(false);
+    if w.get("codes_only").is_some() {
+        check_codes(&mut rep);
+        rep.evaluations = 1;
+        return rep;
+    }
     check_point(g("select"), g("a"), g("b"), cin, &mut rep);
     rep.evaluations = 1;
     rep
